@@ -85,9 +85,9 @@ def run(tier, seed, replay=None):
             V.fail("gmres raises %s" % type(ex).__name__, {"size": m, "exc": str(ex)[:200]}); continue
         r1 = float((L @ x1 - bvec).norm() / bvec.norm()); r4 = float((L @ x4 - bvec).norm() / bvec.norm())
         n_loc += 1
-        if r4 > r1 * (1 + 1e-6) + 1e-14:
+        if not (r4 <= r1 * (1 + 1e-6) + 1e-14):
             V.fail("gmres_restart: the residual after restarts is larger than after the first cycle", {"size": m, "threshold": thr, "one_cycle": r1, "restarted": r4})
-        if c4 and r4 > 10 * thr:
+        if c4 and not (r4 <= 10 * thr):
             V.fail("gmres_restart reports convergence with a residual above the threshold", {"size": m, "threshold": thr, "restarted": r4})
     dist["local gmres contract"] = n_loc
     # BiCGSTAB: the same kind of contract; its stopping tests must be relative (right-hand sides of any magnitude) and a
@@ -107,7 +107,7 @@ def run(tier, seed, replay=None):
             V.fail("BiCGSTAB_reset raises %s" % type(ex).__name__, {"size": m, "exc": str(ex)[:200]}); continue
         rb = float((L @ xb.reshape(-1, 1) - bvec).norm() / bvec.norm())
         n_bi += 1
-        if rb > 10 * thr:
+        if not (rb <= 10 * thr):
             V.fail("BiCGSTAB_reset: well-conditioned SPD system, 200 iterations allowed, residual above the threshold", {"size": m, "threshold": thr, "rhs_scale": sc, "rel_residual": rb, "iterations": int(nit)})
     dist["local bicgstab contract"] = n_bi
     # ---- the frame identity (C12_entry_frame / _setc / _setc_add) on the implementation, exactly (integer cores): the dense value as a
@@ -313,7 +313,7 @@ def run(tier, seed, replay=None):
         if history.wf_failures(x) or [int(v) for v in x.N] != N or x.is_ttm:
             V.fail("amen_solve: result has the wrong shape / is ill formed", desc); continue
         Af = A.full().reshape(int(np.prod(N)), -1); res = float((Af @ x.full().reshape(-1) - b.full().reshape(-1)).norm() / b.full().norm())
-        if res > CONST * eps:
+        if not (res <= CONST * eps):
             V.fail("amen_solve: residual exceeds %g*eps [%s]" % (CONST, key), dict(desc, rel_residual=res, ranks=[int(r) for r in x.R]))
     nviol = V.finish()
     cov = proofcheck.coverage(PID, obl, evaluations=n + len(search_cases), distinct_nontrivial=len(dist) + n_search,
